@@ -393,7 +393,17 @@ def run_cases(run, vh, cases, qcur, workers=8):
 
 def main(tier, seed, replay=None):
     run = Run(PROP, tier, seed)
-    vh, proof = prepare(PROP_FILES, thorough=(tier == "thorough"))
+    vh, proof = prepare(PROP_FILES, thorough=False)
+    if tier == "thorough" and proof.get("ok"):
+        # coqchk needs the logical name (Arrai.Properties.C17); common.prepare(thorough=True) passes "Properties.C17", which coqchk cannot resolve
+        cmd = "timeout 2400 coqchk -silent -o -Q . Arrai Arrai.Properties.C17 Arrai.Check.C17Check"
+        rc, so, se = sh(cmd, timeout=2500, cwd=COQ)
+        proof["coqchk"] = (so + se)[-1500:]
+        proof["checker_cmd"] += " ; " + cmd
+        if rc != 0 or "Axioms: <none>" not in (so + se):
+            proof["broken"].append({"what": "coqchk failed or reports axioms", "log": (so + se)[-1500:]})
+            proof["ok"] = False
+            proof["discharged"] = 0
     open_sigs = {f["sig"] for f in run.opened}
     qcur = (SIG_LOOP in open_sigs, SIG_NIL in open_sigs)
     rng = random.Random(seed)
